@@ -17,7 +17,7 @@ func runC02(r *rt.Run) {
 	r.Describe = describePair
 	p := buildPools(r.Thorough())
 	r.Bounds["pools"] = p.desc
-	r.Rule = "every ordered pair over pools of valid shapes built exhaustively from lattice alphabets (all half-step points, all rectangles incl. zero-extent, all lines of 2-3 positions incl. zero-length segments, all simple rings, curated exteriors x all valid holes); both operand orders; two index configurations and a third realisation in which both operands are derived objects (built elsewhere under an r-tree index, brought to their place through Move) and a fourth scaled by 2^-30; non-trivial = bounding boxes meet"
+	r.Rule = "every ordered pair over pools of valid shapes built exhaustively from lattice alphabets (all half-step points, all rectangles incl. zero-extent, all lines of 2-3 positions incl. zero-length segments, all simple rings, curated exteriors x all valid holes); both operand orders; two index configurations and a third realisation in which both operands are derived objects (built elsewhere under an r-tree index, brought to their place through Move) a fourth scaled by 2^-30 and a fifth small and far away (step 2^-12 at 2^19); non-trivial = bounding boxes meet"
 	r.Assume = []string{"valid operands (simple rings, holes inside) on small dyadic coordinates", "reference: exact set intersection via 1-D decomposition of boundary segments (verif/mc/exact); symmetric by construction"}
 	allPairs(r, p, func(a, b *shp, w *rt.Worker) {
 		cur := &curPair{"intersects", a.E, b.E}
@@ -55,6 +55,12 @@ func runC02(r *rt.Run) {
 				return pairCase("intersects", b.E, a.E, ident, "alt"), fmt.Sprint(want), fmt.Sprint(ba2)
 			})
 		}
+		if ab5 := libIntersects(a.G5, b.G5); ab5 != ab {
+			w.Fail("translation-dependence", func() (rt.Case, string, string) {
+				return pairCase("intersects", a.E, b.E, ident, "far-fine"), fmt.Sprint(want), fmt.Sprint(ab5)
+			})
+		}
+		w.Evals++
 		if ab4 := libIntersects(a.G4, b.G4); ab4 != ab {
 			w.Fail("scale-dependence", func() (rt.Case, string, string) {
 				return pairCase("intersects", a.E, b.E, ident, "tiny"), fmt.Sprint(want), fmt.Sprint(ab4)
